@@ -31,10 +31,14 @@ Section Forces.
   Definition isnan (x : T) : bool := negb (neqb Nm x x).
   Definition isfinite (x : T) : bool := neqb Nm (x - x) c0.
 
-  (* vec3::get_angle_with *)
+  (* vec3::get_angle_with(vec3&&) — the overload taken when the argument is a temporary: `if(!std::isfinite(angle)) angle = 1.` *)
   Definition angle_with (u v : vec) : T :=
     let a := lacos L (vdot Nm u v / (vnorm Nm u * vnorm Nm v)) in
-    if isfinite a then a else c1.
+    if negb (isfinite a) then c1 else a.
+  (* vec3::get_angle_with(const vec3&) — the overload taken for a named vector: `if(std::isnan(angle)) angle = 1.` *)
+  Definition angle_with_nan (u v : vec) : T :=
+    let a := lacos L (vdot Nm u v / (vnorm Nm u * vnorm Nm v)) in
+    if isnan a then c1 else a.
 
   (* utils.hpp: almost_equal(x, y, ulp = 2) *)
   Definition almost_equal (x y : T) : bool :=
@@ -115,7 +119,8 @@ Section Forces.
     let '(g1i, g1j, g1k) := angle_gradient p1 p2 p3 in
     let '(g2i, g2j, g2k) := angle_gradient p2 p1 p3 in
     let '(g3i, g3j, g3k) := angle_gradient p3 p1 p2 in
-    if vfinite g1i && vfinite g2i && vfinite g3i then
+    if isfinite (vx g1i) && isfinite (vy g1i) && isfinite (vz g1i) && isfinite (vx g2i) && isfinite (vy g2i) && isfinite (vz g2i)
+       && isfinite (vx g3i) && isfinite (vy g3i) && isfinite (vz g3i) then      (* one left-associated chain, as in the source *)
       let t3 := pi / cst 3 in
       let comb (u v w : vec) : vec :=
         vscale Nm (vadd Nm (vadd Nm (vscale Nm u (t3 - a1)) (vscale Nm v (t3 - a2))) (vscale Nm w (t3 - a3))) kreg in
@@ -144,7 +149,7 @@ Section Forces.
     let e0 := vsub Nm x2 x1 in let e1 := vsub Nm x3 x1 in let e2 := vsub Nm x4 x1 in
     let e3 := vsub Nm x3 x2 in let e4 := vsub Nm x4 x2 in
     let me0 := vscale Nm e0 (- c1) in
-    let al1 := angle_with e0 e1 in let al2 := angle_with e0 e2 in
+    let al1 := angle_with_nan e0 e1 in let al2 := angle_with_nan e0 e2 in
     let al3 := angle_with e3 me0 in let al4 := angle_with e4 me0 in
     let dt := vdot Nm nrm1 nrm2 in
     let th0 := if nleb Nm c1 dt then c0 else if nleb Nm dt (- c1) then pi else lacos L dt in
@@ -162,11 +167,12 @@ Section Forces.
     let g2t := vscale Nm nrm1 (el / (cst 2 * ff_area f1)) in
     let g3t := vscale Nm nrm2 (el / (cst 2 * ff_area f2)) in
     let hp := pi / cst 2 in
+    let mhp := (- pi) / cst 2 in                    (* -M_PI / 2. as the source writes it *)
     let t1 := rotate_around_axis e1 nrm1 hp in
-    let t2 := rotate_around_axis e2 nrm2 (- hp) in
-    let t3 := rotate_around_axis e3 nrm1 (- hp) in
+    let t2 := rotate_around_axis e2 nrm2 mhp in
+    let t3 := rotate_around_axis e3 nrm1 mhp in
     let t4 := rotate_around_axis e4 nrm2 hp in
-    let t00 := rotate_around_axis e0 nrm1 (- hp) in
+    let t00 := rotate_around_axis e0 nrm1 mhp in
     let t01 := rotate_around_axis e0 nrm2 hp in
     let pf3 := (el * el) / ((cst 2 * sumA) * sumA) in
     let g0i := vadd Nm (vscale Nm e0 ((- cst 2) / sumA)) (vscale Nm (vadd Nm t3 t4) pf3) in
